@@ -6,6 +6,9 @@ import "github.com/beevik/etree"
 
 func verifMaterialise(d *verifDoc) []byte
 
+// verifMaterialiseArtifact: the bytes of <soap:Envelope><soap:Body><samlp:ArtifactResponse>...<samlp:Response>.
+func verifMaterialiseArtifact(d *verifArtifactDoc) []byte
+
 func verifMaterialiseLogout(lr *LogoutResponse, sign int, rootless bool) []byte
 func verifDeflate(b []byte) []byte
 
